@@ -94,7 +94,11 @@ let pres_ns f = function
   | Panic _ -> pint 2
 let rec drop_none = function [] -> [] | Some x :: r -> x :: drop_none r | None :: r -> drop_none r
 
+(* the plain view of C07: outside the model's float domain (a style row with an exotic float) only the class is compared *)
+let ssa_plain_simple d = match read_ssa d with Err EOther -> false | _ -> true
+
 let () =
+  Drv_plain.register_plain 2 ssa_dec ssa_enc ssa_plain_simple;
   register "ssareadm" (fun r -> pres_ns pdoc_ssa (read_ssa (rstr r)));
   register "ssawritem" (fun r ->
     let d = rdoc_ssa r in let order = rlist rstr r in
